@@ -3,7 +3,7 @@ From KG Require Import Prelude C13_Model C19_Model C18_Model C18_Spec.
 Open Scope Z_scope.
 
 Inductive case :=
-| CHist (c : cfg) (tr : list (op * obs)).
+| CHist (c : cfg) (tr : list (sop * obs)).
 
 Definition sub {K V} (keqb : K -> K -> bool) (veqb : V -> V -> bool) (a b : list (K * V)) : bool :=
   forallb (fun p => opt_eqb veqb (alookup keqb (fst p) b) (Some (snd p))) a.
@@ -12,18 +12,21 @@ Definition seteq {K V} (keqb : K -> K -> bool) (veqb : V -> V -> bool) (a b : li
 
 Definition fcst_eqb (a b : fcst) : bool := (seteq String.eqb Z.eqb (fst a) (fst b) && (snd a =? snd b))%bool.
 
-Definition agree_step (m : res * st) (b : obs) : bool :=
-  let '(q, s) := m in
+Definition agree_step (m : res * srv) (b : obs) : bool :=
+  let '(q, x) := m in
+  let s := core x in
+  let vis := fun {A} (l : list A) => if lead x then l else [] in
   (res_eqb q (ores b)
    && forallb (fun i => str_mem i (oclients b)) (map fst (hb s))
    && Nat.eqb (List.length (hb s)) (List.length (oclients b))
-   && seteq key_eqb cnd_eqb (conds s) (oconds b)
-   && seteq String.eqb Z.eqb (sums s) (osums b)
+   && seteq key_eqb cnd_eqb (vis (conds s)) (oconds b)
+   && seteq key_eqb cnd_eqb (conds s) (opers b)
+   && seteq String.eqb Z.eqb (vis (sums s)) (osums b)
    && seteq String.eqb fcst_eqb (cnts s) (ocnts b)
    && seteq String.eqb fcst_eqb (cnts s) (ocnts2 b) && (oother b =? 0))%bool.
 
-Definition agree_hist (c : cfg) (tr : list (op * obs)) : bool :=
-  forall2b agree_step (run c impl_label_fix impl_acquire_hb (init c) (map fst tr)) (map snd tr).
+Definition agree_hist (c : cfg) (tr : list (sop * obs)) : bool :=
+  forall2b agree_step (srun c impl_label_fix impl_acquire_hb (sinit c) (map fst tr)) (map snd tr).
 
 (* clause layout: agree, live, reclaimed, capacity *)
 Definition eval (c : case) : list bool :=
